@@ -720,8 +720,8 @@ class SymPath:
                     if name.endswith("as std::ops::Try>::branch") and isinstance(a0, tuple) and a0[0] == "agg" and str(a0[1]).startswith("std::result::Result::"):
                         if str(a0[1]).endswith("::Err"): e = ("agg", "std::ops::ControlFlow::Break", [("0", a0)])
                         elif str(a0[1]).endswith("::Ok"): e = ("agg", "std::ops::ControlFlow::Continue", [("0", a0[2][0][1] if a0[2] else ("unit",))])
-                    elif "FromResidual" in name and name.endswith("::from_residual") and "result::Result" in name:
-                        e = ("agg", "std::result::Result::Err", [("0", e)])
+                    elif name.endswith("as std::ops::Try>::branch") and isinstance(a0, tuple) and a0[0] == "call" and "FromResidual" in str(a0[1]) and str(a0[1]).endswith("::from_residual") and "result::Result" in str(a0[1]):
+                        e = ("agg", "std::ops::ControlFlow::Break", [("0", a0)])        # the value an inner `?` returned is an Err
                 self.assign(t[3], e)
             elif t[0] == "switch" and nxt is not None:
                 d = self.op(t[1])
